@@ -45,6 +45,8 @@ def nontrivial(prop, case):
         return succ >= 2 and reads >= 1
     if case["kind"] in ("match", "update"):
         return okind(case["impl"]) == "ok"
+    if case["kind"] == "decomp":
+        return (case.get("request") or {}).get("keys", 0) > 0
     return True
 
 
@@ -250,6 +252,10 @@ def run_world(case, sdk, checks):
                             if item_get(res, kn) is MISSING:
                                 w.flag(i, "upsert-lost-key-attr", "UpdateItem on an absent key did not create the item from the key attributes", impl=o)
                 t.items[key] = res
+            elif "native" in checks and w.native and k in ("err", "panicErr") and (o.get("err") or o.get("panicErr")) == "Unsupported" \
+                    and (op["table"], norm_ws(hx(op.get("expr", "")))) in w.updaters:
+                w.flag(i, "native-updater-not-dispatched", "an updater is registered for this table and expression and the native interpreter is "
+                       "active, but UpdateItem failed as unsupported", impl=o)
             elif k == "err" and o["err"] == "ConditionalCheckFailed":
                 if "cond" in checks and cond_expect is not None and "F" not in cond_expect:
                     w.flag(i, "cond-should-pass", "conditional UpdateItem refused although the condition is %s" % sorted(cond_expect), impl=o)
@@ -590,7 +596,8 @@ def check_order(w, i, t, op, items):
         except TypeError:
             return
         if bad:
-            w.flag(i, "order", "Query results are not in %s sort-key order" % ("ascending" if fwd else "descending"), keys=[str(x)[:20] for x in vals[:8]])
+            w.flag(i, "order", "Query results are not in %s sort-key order" % ("ascending" if fwd else "descending"), keys=[str(x)[:20] for x in vals[:8]],
+                   sort_key_type=sch[1][1])
             return
 
 
@@ -738,6 +745,8 @@ def judge(prop, case):
         return judge_match(prop, case)
     if kind == "update":
         return judge_update(prop, case)
+    if kind == "decomp":
+        return [dict(x, sig="decomp:" + x.get("where", "")) for x in case["impl"].get("violations", [])]
     if kind == "poke":
         return [dict(x, sig="alias:" + x.get("where", "")) for x in case["impl"].get("violations", [])]
     if kind == "race":
